@@ -113,8 +113,8 @@ class RequestHandler:
                         break  # no more messages to process
                 except DecodeError as err:
                     # we have to decode 'origin' here
-                    # use latin-1, as utf-8 or ascii may lead to encoding errors
-                    msg = err.raw_msg.strip().decode('latin-1').split(' ', 3) + [
+                    # the message is utf-8, bytes which can not be decoded are replaced
+                    msg = err.raw_msg.strip().decode('utf-8', errors='replace').split(' ', 3) + [
                         None
                     ]  # make sure len(msg) > 1
                     result = (
